@@ -2383,7 +2383,19 @@ class Kconfig(object):
         # A separate helper function is neater than complicating write_config()
         # by passing a flag to it, plus we only need to look at symbols here.
 
-        self._write_if_changed(os.path.join(path, "auto.conf"), self._old_vals_contents())
+        filename = os.path.join(path, "auto.conf")
+        contents = self._old_vals_contents()
+        if self._contents_eq(filename, contents):
+            return
+
+        # auto.conf records what this run saw, for the next run to compare against. It has to be
+        # replaced atomically: if the process dies while the file is rewritten in place, a partially
+        # written line can show a different, shorter value (CONFIG_FOO=123 -> CONFIG_FOO=12). The next
+        # run would take that for the old value and would not flag FOO when its new value is 12.
+        tmp_filename = filename + ".tmp"
+        with open(tmp_filename, "w", encoding=self._encoding) as f:
+            f.write(contents)
+        os.replace(tmp_filename, filename)
 
     def _old_vals_contents(self):
         # _write_old_vals() helper. Returns the contents to write as a string.
